@@ -59,9 +59,14 @@ def check_cell(mn, m, c, hs, tol=2e-8):
     def far(x, y, t=tol):
         x, y = np.asarray(x, float), np.asarray(y, float)
         return not np.all(np.abs(x - y) <= t * max(1.0, cond ** 0.5) * (np.abs(y).max() + 1e-300))
-    A = m.form_a_mat(c)
-    B = m.form_b_mat(c)
-    V = m.cell_volume(c)
+    try:
+        A = m.form_a_mat(c)
+        B = m.form_b_mat(c)
+        V = m.cell_volume(c)
+        m.a_to_cell(A), m.b_to_cell(B), m.cell_invert(m.cell_invert(c)), m.form_a_mat_inv(c), m.sintl(c, hs[0])
+    except (ValueError, ZeroDivisionError, FloatingPointError, np.linalg.LinAlgError) as e:
+        bad('raised', '%s: %s' % (type(e).__name__, e), 'no exception on a valid cell')
+        return out
     for M_, nm in ((A, 'form_a_mat'), (B, 'form_b_mat')):
         if abs(M_[1, 0]) + abs(M_[2, 0]) + abs(M_[2, 1]) != 0 or min(M_[0, 0], M_[1, 1], M_[2, 2]) <= 0:
             bad(nm + ':upper-triangular-positive-diagonal', M_, 'upper triangular, positive diagonal')
